@@ -16,7 +16,9 @@ LEVEL_TEXT = ('Bounded model checking of the two local mechanisms the property r
               'announcement is younger than 24 h, re-announcing refreshes, clean-up never drops a live one; (b) paging - for '
               'every announcer count up to the bound, every requester identity and "blob held locally" flag (solver-chosen), '
               'the pages the real client is led to request from the real server cover every announcer except the requester, '
-              'each once, at most K per page.')
+              'each once, at most K per page; (c) store(blob, token, port) followed by a value lookup: an announcement made with '
+              'the token that was handed out (valid for one refresh) and a valid port is stored and returned with the announced '
+              'port, any other store is refused and stores nothing.')
 LEVEL_NOTE = ('Trusted: z3, the interpreter (paths replayed natively), the stub protocol/peer-manager objects.  Declined (no '
               'bounded encoding within reach): the hit guarantee in a loss-free network and termination of iterative lookups '
               'under loss / duplication / reordering - whole-network asyncio schedules over 2..40 nodes.')
@@ -209,6 +211,61 @@ def paging(vm, lo, hi):
     return 'ok'
 
 
+class StoreServer(KademliaRPC):
+    """Real store / make_token / verify_token / find_value on stub protocol objects."""
+
+    def __init__(self, protocol, loop):
+        self.protocol = protocol
+        self.loop = loop
+        self.peer_port = 3333
+        self.token_secret = b's' * 48
+        self.old_token_secret = None
+
+    def find_node(self, rpc_contact, key):
+        return []
+
+
+def store_then_find(vm):
+    """An announcement: store(blob, token, port) by a node, then a value lookup by another node returns the announcer's
+    address and announced port; a store with an invalid port or (after a token refresh and the start-up grace) a wrong
+    token is refused and stores nothing."""
+    clock = Clock()
+    pm = PM(vm)
+    store = DictDataStore(clock, pm)
+    protocol = StubProtocol(store)
+    protocol.started_listening_time = 0
+    server = StoreServer(protocol, clock)
+    clock.now = vm.new_int('now', 0, 3 * DAY)
+    if vm.new_bool('token_secret_was_refreshed'):
+        server.refresh_token()
+    announcer = make_kademlia_peer(b'\x42' * 48, '8.8.4.4', udp_port=4444)
+    honest_token = server.make_token(announcer.compact_ip())
+    if vm.new_bool('then_refreshed_once_more'):
+        server.refresh_token()                        # a token stays valid for one refresh
+    token = honest_token if vm.new_bool('token_is_the_one_handed_out') else b'f' * 48
+    port = vm.new_int('port', -2, 65540)
+    try:
+        reply = server.store(announcer, KEY, token, port)
+    except ValueError:
+        if store.get_peers_for_blob(KEY):
+            return 'VIOLATION: a refused store left an announcement behind'
+        if 0 < port < 65535 and token is honest_token:
+            return 'VIOLATION: a store with the token that was handed out and a valid port is refused'
+        return 'ok-refused'
+    except Exception as e:
+        return 'VIOLATION: store raised %s' % type(e).__name__
+    if not 0 < port < 65535:
+        return 'VIOLATION: a store with an invalid tcp port is accepted'
+    if reply != b'OK':
+        return 'VIOLATION: store does not answer OK'
+    requester = make_kademlia_peer(b'\x77' * 48, '7.7.7.7', udp_port=4444, tcp_port=3999)
+    found = server.find_value(requester, KEY, 0).get(KEY, [])
+    want = bytes([8, 8, 4, 4]) + port.to_bytes(2, 'big') + b'\x42' * 48          # compact address: ip, tcp port, node id
+    if [bytes(a) for a in found] != [bytes(want)]:
+        return 'VIOLATION: a value lookup after the store does not return the announcer with the announced port'
+    return 'ok-stored'
+
+
 def jobs(tier):
     out = []
     for n_peers, n_events in ([(1, 3), (2, 3), (2, 4)] if tier == 'quick' else [(1, 3), (1, 5), (2, 4), (2, 5), (3, 4)]):
@@ -216,6 +273,9 @@ def jobs(tier):
                         loop_bound=200, max_depth=60, cost=30 ** n_events // 100,
                         bounds=dict(announcers=n_peers, events=n_events, event_kinds='announce / clean-up / mark good-bad-unknown',
                                     clock='symbolic non-decreasing, steps up to 3 days')))
+    out.append(dict(name='store-then-find', family='store', fn='store_then_find', args=(), loop_bound=200, max_depth=60, cost=50,
+                    bounds=dict(port='-2..65540', token='the one handed out or another', refreshes='0..2', clock='0..3 days after start'),
+                    must_reach=('ok-stored', 'ok-refused')))
     ranges = [(0, 9), (10, 19), (20, 27), (86, 90), (96, 100)] if tier == 'quick' else [(lo, lo + 4) for lo in range(0, 130, 5)]
     for lo, hi in ranges:
         out.append(dict(name=f'paging-{lo}-{hi}', family='paging', fn='paging', args=(lo, hi), loop_bound=400,
@@ -260,7 +320,18 @@ def _old_page_count(node):
     return False
 
 
+def _store_port_unchecked(node):
+    import ast
+    for n in ast.walk(node):
+        if isinstance(n, ast.If) and 'port' in ast.unparse(n.test) and 'invalid tcp port' in ast.unparse(n):
+            n.test = ast.Constant(False)
+            return True
+    return False
+
+
 CANARIES = [
+    dict(name='store-accepts-any-port', target='lbry.dht.protocol.protocol:KademliaRPC.store', mutate=_store_port_unchecked,
+         job=dict(family='store', fn='store_then_find', args=(), loop_bound=200, max_depth=60)),
     dict(name='page-count-undercounts', target='lbry.dht.protocol.protocol:KademliaRPC.find_value', mutate=_old_page_count,
          job=dict(family='paging', fn='paging', args=(88, 90), loop_bound=400, max_depth=60)),
     dict(name='expires-one-second-late', target='lbry.dht.protocol.data_store:DictDataStore.filter_expired_peers', mutate=_expiry_le,
